@@ -309,8 +309,7 @@ class C14(Check):
             # leaves: RealMPFR, big integers, every constant
             outs = [["add", x, ["real_double", 0.1]], ["mul", y, I(2 ** 53 + 1)], ["add", x, I(-(2 ** 64 + 3))],
                     ["mul", x, ["constant", "pi"]], ["add", y, ["constant", "EulerGamma"]],
-                    ["mul", ["constant", "Catalan"], ["constant", "GoldenRatio"], ]]
-            outs[5] = ["mul", ["add", x, ["constant", "Catalan"]], ["constant", "GoldenRatio"]]
+                    ["mul", ["add", x, ["constant", "Catalan"]], ["constant", "GoldenRatio"]]]
             a = (["x", "y"], 2, [], outs, False, 1, vecs, None, 90)
             yield make_case(ftype, [a])
 
